@@ -1,6 +1,6 @@
 (* DigitProofsReal.v -- C10: what is provable about realToString on the model:
    the text already in the stream is untouched (append-only), infinities / NaN /
-   zeros in each format, and the refutation witnesses of the full claim. *)
+   zeros in each format, and computed instances of the full claim (which stays a statement). *)
 From Coq Require Import NArith ZArith List Bool Lia.
 From Qv Require Import gen.Tables_digit DigitModel DigitModelSpec.
 Import ListNotations.
@@ -93,33 +93,39 @@ Example specials_examples :
   /\ real_to_string finfo_float [] 0 0 1 = Ok [48].
 Proof. repeat (match goal with |- _ /\ _ => split end); vm_compute; reflexivity. Qed.
 
-(* ---- the full claim and its refutation on the faithful model ---- *)
-(* "for every finite double, precision and format the text equals the printf reference" *)
+(* ---- the full claim: a statement only ---- *)
+(* "for every finite double, precision and format the text equals the printf reference".
+   Before findings/D48 and D49 the faithful model refuted it (11150.001 at 2 semi-fixed
+   digits -> 1115; 23585.805 at 4 significant digits -> 2.358e+04).  With the two
+   repairs no counterexample is known; the statement is NOT proved (the early drop of
+   low words in realToString makes the digits inexact in principle), it is tested. *)
 Definition c10_real_matches_reference_stmt : Prop :=
   forall bits prec fmt, bits < 2 ^ 64 -> fmt <= 2 ->
     real_to_string finfo_double [] bits prec fmt = Ok (c10_reference fmt_double bits prec fmt).
 
-(* 11150.001 at 2 semi-fixed digits prints 1115 (reference 11150): class KF-C10c *)
-Lemma witness_c10c :
-  real_to_string finfo_double [] 4667355392203070374 2 2 = Ok [49; 49; 49; 53]
-  /\ c10_reference fmt_double 4667355392203070374 2 2 = [49; 49; 49; 53; 48]
-  /\ c10_real_oracle fmt_double [] 4667355392203070374 2 2 [49; 49; 49; 53] = 3.
-Proof. repeat (match goal with |- _ /\ _ => split end); vm_compute; reflexivity. Qed.
+(* the former witnesses of the classes KF-C10c (D48) and KF-C10b (D49) now print the reference *)
+Definition repaired_cases : list (N * N * N) :=
+  [ (4667355392203070374, 2, 2)    (* 11150.001 semi-fixed 2 -> 11150 *)
+  ; (4668493611038190600, 0, 2)    (* 13220.409 semi-fixed 0 -> 13220 *)
+  ; (4668614351158815752, 1, 1)    (* 13440.034 fixed 1 -> 13440.0 *)
+  ; (4621846139186735743, 1, 1)    (* 10.048 fixed 1 -> 10.0 *)
+  ; (4672212430667823186, 4, 0)    (* 23585.805 default 4 -> 2.359e+04 *)
+  ; (4699285713123593421, 6, 0)    (* 1521525.3 default 6 -> 1.52153e+06 *)
+  ; (4702623120467427328, 1, 0)    (* 2500000 default 1: exact tie -> 2e+06 *)
+  ; (4589168020290535424, 3, 1)    (* 0.0625 fixed 3: exact tie -> 0.062 *)
+  ; (4612811918334230528, 0, 1)    (* 2.5 fixed 0 -> 2 *)
+  ; (4615063718147915776, 0, 1) ]. (* 3.5 fixed 0 -> 4 *)
+Definition repaired_ok : bool :=
+  forallb (fun '(b, p, f) => match real_to_string finfo_double [] b p f with
+                            | Ok t => list_eqb t (c10_reference fmt_double b p f)
+                            | Err _ => false end) repaired_cases.
+Lemma c10_repaired_cases_ok : repaired_ok = true.
+Proof. vm_compute. reflexivity. Qed.
 
-(* 23585.805 at 4 significant digits prints 2.358e+04 (reference 2.359e+04): class KF-C10b *)
-Lemma witness_c10b :
-  real_to_string finfo_double [] 4672212430667823186 4 0 = Ok [50; 46; 51; 53; 56; 101; 43; 48; 52]
-  /\ c10_reference fmt_double 4672212430667823186 4 0 = [50; 46; 51; 53; 57; 101; 43; 48; 52]
-  /\ c10_real_oracle fmt_double [] 4672212430667823186 4 0 [50; 46; 51; 53; 56; 101; 43; 48; 52] = 2.
+Example repaired_texts :
+  real_to_string finfo_double [] 4667355392203070374 2 2 = Ok [49; 49; 49; 53; 48]
+  /\ real_to_string finfo_double [] 4672212430667823186 4 0 = Ok [50; 46; 51; 53; 57; 101; 43; 48; 52].
 Proof. repeat (match goal with |- _ /\ _ => split end); vm_compute; reflexivity. Qed.
-
-Theorem c10_real_matches_reference_refuted : ~ c10_real_matches_reference_stmt.
-Proof.
-  intros H. destruct witness_c10c as [W1 [W2 _]].
-  assert (E : Ok [49; 49; 49; 53] = Ok (c10_reference fmt_double 4667355392203070374 2 2)).
-  { rewrite <- W1. apply H; [vm_compute; reflexivity | vm_compute; discriminate]. }
-  rewrite W2 in E. discriminate E.
-Qed.
 
 (* after D42 / D33: 0.5 at precision 0 Fixed is "0" (was "0." with a read past the end), 9.5 -> "10" *)
 Example fixed_precision_zero_now :
